@@ -292,6 +292,46 @@ def install(models, prog):
             out.append(n); n = n.parent
         return ListIt(out)
 
+    def sib(x, step, with_tokens):
+        p_ = x.parent
+        if p_ is None:
+            return None
+        ch = p_.children
+        i = next(k for k, c_ in enumerate(ch) if c_ is x) + step
+        while 0 <= i < len(ch):
+            if with_tokens or isinstance(ch[i], NodeV):
+                return ch[i]
+            i += step
+        return None
+
+    @R(r"^%s::(next|prev)_sibling_or_token$|^%s::(next|prev)_sibling_or_token$" % (SN, ST))
+    def _sib_or_tok(ex, c, a):
+        x = as_node(a[0])
+        r = sib(x, 1 if "::next_" in c else -1, True)
+        return opt(elem(r)) if r is not None else NONE()
+
+    @R(r"^%s::(next|prev)_sibling$" % SN)
+    def _sib_node(ex, c, a):
+        x = as_node(a[0])
+        r = sib(x, 1 if "::next_" in c else -1, False)
+        return opt(r) if r is not None else NONE()
+
+    @R(r"^(rowan::)?api::<impl NodeOrToken<.*>>::(next|prev)_sibling_or_token$")
+    def _elem_sib(ex, c, a):
+        x = deref(a[0]).fields[0]
+        r = sib(x, 1 if "::next_" in c else -1, True)
+        return opt(elem(r)) if r is not None else NONE()
+
+    @R(r"^%s::(next|prev)_token$" % ST)
+    def _tok_step(ex, c, a):
+        x = as_node(a[0])
+        root = x
+        while root.parent is not None:
+            root = root.parent
+        toks = [t for t in preorder(root, True) if isinstance(t, LeafV)]
+        i = next(k for k, t in enumerate(toks) if t is x) + (1 if "::next_" in c else -1)
+        return opt(toks[i]) if 0 <= i < len(toks) else NONE()
+
     @R(r"^<(rowan::)?(api::)?Syntax(Node|Token)(<.*>)? as Clone>::clone$|^<NodeOrToken<.*> as Clone>::clone$")
     def _clone(ex, c, a):
         v = deref(a[0])
